@@ -59,6 +59,12 @@ def dissipator2 (c : Mat) : Mat :=
   let cdc := mulM (dag c) c
   subM (subM (smul ⟨2, 0⟩ (kron (conjM c) c)) (spre cdc)) (spost cdc)
 
+/-- 2 × `lindblad_dissipator(a, b, chi)` with the jump term multiplied by `z = e^{iχ}`:
+z·(conj(b) ⊗ a) − ½ spre(a† b)… written as in the source: `sprepost(a, b†)·z − ½ spre(ad_b) − ½ spost(ad_b)`, `ad_b = a† b` -/
+def dissipatorChi2 (z : GI) (a b : Mat) : Mat :=
+  let adb := mulM (dag a) b
+  subM (subM (smul (z.mul ⟨2, 0⟩) (sprepost a (dag b))) (spre adb)) (spost adb)
+
 /-- 2 × liouvillian(H, c_ops) -/
 def liouvillian2 (h : Mat) (cs : List Mat) : Mat :=
   let comm := smul ⟨0, -2⟩ (subM (spre h) (spost h))
